@@ -116,7 +116,11 @@ def showReq (c : Class) (evs : List Ev) : String :=
 
 def step (s : State) (fs : List String) : State × String :=
   match fs with
-  | ["inns", _] => (s, "ok")   -- the whole case runs in a child namespace: same script, same answers (paths are namespace-relative)
+  | ["inns", _] => (s, "ok")
+  | ["caps", l, hp] =>
+    match s.findToken l, parseHexStr? hp with
+    | some t, some p => (s, ",".intercalate (capabilityList t.isRootAcl (s.rulesOf t) p.toList))
+    | _, _ => (s, "bad-op")   -- the whole case runs in a child namespace: same script, same answers (paths are namespace-relative)
   | _ =>
   match parseCmd? fs with
   | none => (s, "bad-op")
